@@ -35,7 +35,7 @@ REGISTRY = {
             "run_depends_only_on_declared_vars", "run_ignores_undeclared_var", "run_vars_order_irrelevant"],
     "C12": ["api_failure_is_atomic", "api_is_RunProgram", "apiRun_no_flag", "api_never_panics", "text_run_never_panics", "run_never_panics", "evalExpr_never_panics", "getBalance_store_failure", "run_preload_failure",
             "meta_store_failure", "runBalancesQuery_no_call"],
-    "C13": ["digitsVal_eq_posValue", "digitsVal_append_digit", "ratio_literal_exact", "percent_literal_exact",
+    "C13": ["strBody_append", "strBody_body", "string_literal_is_one_token", "string_literal_trailing_backslash", "string_literal_value", "digitsVal_eq_posValue", "digitsVal_append_digit", "ratio_literal_exact", "percent_literal_exact",
             "percent_frac_literal_exact", "portion_var_ratio", "portion_var_percent", "portion_var_ratio_rejected",
             "roundtrip_string", "roundtrip_asset", "roundtrip_account", "roundtrip_portion", "roundtrip_number",
             "roundtrip_monetary"], "C14": ["parser_keeps_no_state", "parse_text_sound", "parse_sound", "parse_unparse", "lex_ident_not_keyword", "lex_fixed_text", "lexAll_agrees_with_lex", "lexAll_errors_in_text", "lexAll_tokens_in_text", "eofPos_in_text", "syntax_error_on_token_in_text", "syntax_error_at_eof_in_text", "lexer_error_range_in_text", "show_never_panics", "syntax_error_range_wf", "show_syntax_error_never_panics", "splitLines_ne_nil",
